@@ -122,6 +122,15 @@ fn generate_g(seed: u64, _quick: bool) -> Value {
             if rng.chance(1, 3) {
                 prefix.push(json!({"t": "(import (iso missing))", "k": "lib-import-failing"}));
             }
+            if rng.chance(1, 3) {
+                // a library that only ANOTHER instance has been given: unknown here
+                let other = *rng.pick(&whos.iter().copied().filter(|w| *w != who).collect::<Vec<_>>());
+                prefix.push(json!({"t": format!("(import (iso only-{}))", other.to_lowercase()), "k": "lib-import-of-a-neighbour-s-library"}));
+            }
+            if rng.chance(1, 3) {
+                prefix.push(json!({"t": format!("(import (iso only-{}))", who.to_lowercase()), "k": "lib-import"}));
+                prefix.push(json!({"t": "(iso-only-value)", "k": "lib-use"}));
+            }
             if rng.chance(1, 2) {
                 prefix.push(json!({"t": "(import (shared ctr))", "k": "lib-import"}));
             }
@@ -219,7 +228,7 @@ fn generate_g(seed: u64, _quick: bool) -> Value {
         all.extend(forms);
         progs.insert(
             who.to_string(),
-            json!({"forms": all, "armed": sub["armed"], "reg_text": reg_text, "file_text": file_text, "bare_start": bare_start, "no_program_directory": no_program_directory}),
+            json!({"forms": all, "armed": sub["armed"], "reg_text": reg_text, "file_text": file_text, "bare_start": bare_start, "no_program_directory": no_program_directory, "who": who}),
         );
     }
     // schedule: an instance is created right before its first form (A at the start); it may
@@ -359,6 +368,21 @@ fn make_instance(prog: &Value, dir: &PathBuf) -> Result<Inst, crate::hashseed::P
     ));
     if !prog["no_program_directory"].as_bool().unwrap_or(false) {
         sys.it.program_directory = Some(dir.clone());
+    }
+    // a library registered with this instance alone, under a name of its own
+    if let Some(w) = prog["who"].as_str() {
+        let only_name = format!("only-{}", w.to_lowercase());
+        let text = format!(
+            "(define-library (iso {n}) (import (scheme base)) (export iso-only-value) (begin (define (iso-only-value) '{n})))",
+            n = only_name
+        );
+        let lname = library_name_of(&["iso", &only_name]);
+        let it = &mut sys.it;
+        let _ = guarded(|| {
+            if let Ok(f) = LibraryFactory::from_char_stream(&lname, text.chars()) {
+                it.register_library_factory(f);
+            }
+        })?;
     }
     let reg = prog["reg_text"].as_str().unwrap_or("").to_string();
     let name = library_name_of(&["iso", "reg"]);
